@@ -11,4 +11,5 @@ import Cppcms.C04.LemRuleLoop
 import Cppcms.C04.LemSecondRun
 import Cppcms.C04.LemStable
 import Cppcms.C04.LemHtml
+import Cppcms.C04.LemEnc
 /-! C04 helper lemmas (aggregator).  The parts live in `Lem*.lean`; none imports Mathlib. -/
